@@ -8,6 +8,7 @@ package h07
 import (
 	"context"
 	"crypto"
+	"crypto/elliptic"
 	"crypto/x509"
 	"errors"
 	"hash"
@@ -17,6 +18,7 @@ import (
 	"github.com/notaryproject/notation-core-go/revocation"
 	revocationresult "github.com/notaryproject/notation-core-go/revocation/result"
 	"github.com/notaryproject/notation-core-go/signature"
+	"github.com/notaryproject/notation-core-go/testhelper"
 	"github.com/notaryproject/notation-go"
 	"github.com/notaryproject/notation-go/internal/zzvr/envkit"
 	vr "github.com/notaryproject/notation-go/internal/zzvr"
@@ -269,12 +271,32 @@ func annotationsDoc(keys, vals []string) []any {
 	return pairs
 }
 
+// nativeKey: a real key and certificate chain of the key spec (native runs exercise the real envelopes).
+func nativeKey(ksIdx int) (crypto.PrivateKey, []*x509.Certificate) {
+	switch ksIdx {
+	case 0, 1, 2:
+		t := testhelper.GetRSACertTuple([]int{2048, 3072, 4096}[ksIdx])
+		return t.PrivateKey, []*x509.Certificate{t.Cert, testhelper.GetRSARootCertificate().Cert}
+	}
+	t := testhelper.GetECCertTuple([]elliptic.Curve{elliptic.P256(), elliptic.P384(), elliptic.P521()}[ksIdx-3])
+	return t.PrivateKey, []*x509.Certificate{t.Cert, testhelper.GetECRootCertificate().Cert}
+}
+
+var nativeSig []byte
+var nativeMT string
+
 // makeSigner returns the signer under test (as both notation.Signer and notation.BlobSigner).
 func makeSigner(kind, ksIdx int) (notation.Signer, notation.BlobSigner) {
 	switch kind {
 	case 0:
 		localKeySpec = keySpecs[ksIdx]
-		s, err := signer.NewGenericSigner(nil, []*x509.Certificate{leaf, root})
+		var key crypto.PrivateKey
+		chain := []*x509.Certificate{leaf, root}
+		if !vr.Symbolic() {
+			key, chain = nativeKey(ksIdx)
+			root = chain[len(chain)-1]
+		}
+		s, err := signer.NewGenericSigner(key, chain)
 		if err != nil {
 			panic("NewGenericSigner: " + err.Error())
 		}
@@ -294,6 +316,18 @@ func makeSigner(kind, ksIdx int) (notation.Signer, notation.BlobSigner) {
 
 // signedContent: the content of the envelope the signing API produced
 func signedContent(kind int) *signature.EnvelopeContent {
+	if !vr.Symbolic() {
+		// natively: parse and verify the real envelope that was produced
+		env, err := signature.ParseEnvelope(nativeMT, nativeSig)
+		if err != nil {
+			return nil
+		}
+		c, err := env.Verify()
+		if err != nil {
+			return nil
+		}
+		return c
+	}
 	if kind == 2 {
 		return pluginContent
 	}
@@ -306,12 +340,12 @@ func signedContent(kind int) *signature.EnvelopeContent {
 
 // VsymC07OCI: SignOCI -> Verify.
 func VsymC07OCI() {
-	if !vr.Symbolic() {
-		vr.SkipNative()
-	}
 	envkit.Reset()
 	pluginContent, digesterAlgs = nil, nil
 	kind := vr.Choice("signerKind", 3) // local key, raw-signature plugin, envelope plugin
+	if !vr.Symbolic() && kind != 0 {
+		vr.SkipNative() // natively only the local key signer runs (real keys, real JWS / COSE envelopes)
+	}
 	ksIdx := vr.Choice("keySpec", 6)
 	mt := []string{envkit.JWS, envkit.COSE}[vr.Choice("format", 2)]
 	dur := durations[vr.Choice("expiry", len(durations))]
@@ -330,6 +364,7 @@ func VsymC07OCI() {
 	if err != nil || len(r.sigs) != 1 {
 		return
 	}
+	nativeSig, nativeMT = r.sigs[0], mt
 	c := signedContent(kind)
 	vr.Assert(c != nil, "harness: signed content recorded")
 	if c == nil {
@@ -375,12 +410,12 @@ func VsymC07OCI() {
 
 // VsymC07Blob: SignBlob -> VerifyBlob.
 func VsymC07Blob() {
-	if !vr.Symbolic() {
-		vr.SkipNative()
-	}
 	envkit.Reset()
 	pluginContent, digesterAlgs = nil, nil
 	kind := vr.Choice("signerKind", 3)
+	if !vr.Symbolic() && kind != 0 {
+		vr.SkipNative()
+	}
 	ksIdx := vr.Choice("keySpec", 6)
 	mt := []string{envkit.JWS, envkit.COSE}[vr.Choice("format", 2)]
 	dur := durations[vr.Choice("expiry", len(durations))]
@@ -397,14 +432,19 @@ func VsymC07Blob() {
 	if err != nil {
 		return
 	}
+	nativeSig, nativeMT = sig, mt
 	c := signedContent(kind)
 	vr.Assert(c != nil, "harness: signed content recorded")
 	if c == nil {
 		return
 	}
 	alg := wantDigestAlg[ksIdx]
-	vr.Assert(len(digesterAlgs) == 1 && digesterAlgs[0] == alg, "the blob digest is computed with the hash bound to the signing key")
 	wantDigest := string(alg) + ":" + blobDigestHex(alg)
+	if vr.Symbolic() {
+		vr.Assert(len(digesterAlgs) == 1 && digesterAlgs[0] == alg, "the blob digest is computed with the hash bound to the signing key")
+	} else {
+		wantDigest = string(alg.FromString(blob)) // the real digest: a wrong algorithm on either side shows as a mismatch
+	}
 	kv := []any{"mediaType", vr.JStr(contentMT), "digest", vr.JStr(wantDigest), "size", vr.JNum(int64(len(blob)))}
 	if len(meta.keys) > 0 {
 		kv = append(kv, "annotations", vr.JObj(annotationsDoc(meta.keys, meta.vals)...))
@@ -433,7 +473,9 @@ func VsymC07Blob() {
 	if err != nil || outcome == nil {
 		return
 	}
-	vr.Assert(len(digesterAlgs) == 1 && digesterAlgs[0] == alg, "verification digests the blob with the hash bound to the signing key")
+	if vr.Symbolic() {
+		vr.Assert(len(digesterAlgs) == 1 && digesterAlgs[0] == alg, "verification digests the blob with the hash bound to the signing key")
+	}
 	vr.FindingKey("verifyblob-returns-zero-descriptor")
 	vr.Assert(string(desc.Digest) == wantDigest && desc.Size == int64(len(blob)) && desc.MediaType == contentMT, "successful blob verification returns the descriptor of the blob that was verified")
 	vr.FindingKey("")
